@@ -18,7 +18,7 @@ Definition entry_eqb (x y : entry) : bool :=
   match x, y with
   | EDir, EDir | ESameToml, ESameToml => true
   | EBin p, EBin q | ELink p, ELink q | EText p, EText q => beq p q
-  | EPackageToml u d, EPackageToml v e => beq u v && list_eqb beq d e
+  | EPackageToml u o d, EPackageToml v q e => beq u v && beq o q && list_eqb beq d e
   | _, _ => false
   end.
 
